@@ -1039,6 +1039,12 @@ def comment(style, text):
         return "/*%s*/" % text
     if style == "jsdoc":
         return "/**%s*/" % (text if text.startswith(" ") else " " + text + " ")
+    if style == "jsdoc-ml":      # the usual multi-line JSDoc layout: the annotation on a line of its own
+        return "/**\n * %s\n */" % text.replace("*/", "")
+    if style == "jsdoc-ml2":     # ... after a description line
+        return "/**\n * Component file.\n * %s\n * more text\n */" % text.replace("*/", "")
+    if style == "block-ml":
+        return "/*\r\n%s\r\n*/" % text.replace("*/", "")
     return "//%s\n" % text.replace("*/", "").replace("/*", "")
 
 
@@ -1046,7 +1052,7 @@ def c15_cases(tier, seed):
     r = gen.Rng(seed)
     run = corpus_cases("C15") + fixture_cases()
     body = ["const a = <div>{x}</div>;", "function f() { INNER return <><Comp/><p>t</p></>; }", "const b = <Comp v-show={y}>{val}</Comp>;", "export default () => <></>;"]
-    for text, style, place, opt in itertools.product(ANNOT_TEXTS, ["block", "line", "jsdoc"], ["head", "second", "inner", "tail", "two"], [None, "g"]):
+    for text, style, place, opt in itertools.product(ANNOT_TEXTS, ["block", "line", "jsdoc", "jsdoc-ml", "jsdoc-ml2", "block-ml"], ["head", "second", "inner", "tail", "two"], [None, "g"]):
         c = comment(style, text)
         stmts = list(body)
         if place == "head":
@@ -1083,7 +1089,7 @@ def c15_cases(tier, seed):
     # sprinkle annotations over generated modules
     for i, m in enumerate(mods):
         if i % 2 == 0:
-            c = comment(r.pick(["block", "line", "jsdoc"]), r.pick(ANNOT_TEXTS))
+            c = comment(r.pick(["block", "line", "jsdoc", "jsdoc-ml", "jsdoc-ml2", "block-ml"]), r.pick(ANNOT_TEXTS))
             lines = m["src"].split("\n")
             pos = r.below(len(lines))
             lines.insert(pos, c.rstrip("\n"))
@@ -1096,9 +1102,11 @@ def c15_cases(tier, seed):
 PROPS["C15"] = {
     "theorems": ["C15_default_createVNode", "C15_comment_over_option", "C15_option_pragma", "C15_invalid_pragma_reported", "C15_fragment_callee", "C15_later_comment_wins",
                  "C15_unannotated_position_keeps", "C15_scan_no_tag", "C15_scan_other_jsx_tags", "C15_scan_bare", "C15_scan_name",
-                 "C15_scan_result_is_one_word", "C15_element_callee", "visit_pragma", "visitKids_pragma"],
+                 "C15_scan_result_is_one_word", "C15_element_callee", "visit_pragma", "visitKids_pragma",
+                 "C15_annotation_on_any_line", "C15_spec_reading_is_the_models"],
+    "extra_modules": ["VueJsx.Props.C15b"],
     "cases": c15_cases,
-    "explanation": "oracle: the effective pragma is computed from the comments SWC attached before the module / each top-level item by the specification scanner (Text.pragmaOfComment) and the option; the real output must contain exactly one call of that identifier per lowered element/fragment and must not import createVNode; without a pragma every lowered element/fragment is a call of the createVNode imported once from one generated 'vue' import",
+    "explanation": "oracle: the effective pragma is computed from the comments SWC attached before the module / each top-level item by the specification scanner (Oracle.specPragmaOfComment: any line of a comment) and the option; the real output must contain exactly one call of that identifier per lowered element/fragment and must not import createVNode; without a pragma every lowered element/fragment is a call of the createVNode imported once from one generated 'vue' import",
 }
 
 
